@@ -1,6 +1,8 @@
 """C03 — the model's inputs and outputs are exactly what was requested.
 
-tie G : translator/renames_ir.py (the IR of `_temporary_renames` the front-end model runs through)
+tie G : translator/renames_ir.py (the IR of `_temporary_renames` the front-end model runs through),
+         translator/build_front_ir.py (the statement list of `build` itself — guards, exception classes,
+         the with-block, the drop_unused_inputs option — executed by the driver; digests of the covered functions)
 proof  : Props/C03.lean over Model/Front.lean (front end of `spox.build` + `discover`'s argument sets)
 tie H  : random programs with nested If/Loop bodies x random requests, run on the real `spox.build`
          and on the model (driver key C03); graph inputs/outputs compared as ordered
@@ -182,12 +184,13 @@ def run(ck: core.Check):
         ck.cov["generated_renames_ir"] = renames_ir.generate()["ir"]
     except Exception as e:  # noqa: BLE001
         ck.broken("translator", "translator/renames_ir.py could not read src/spox/_public.py", f"{type(e).__name__}: {e}")
+    changed = lf.covered_code_changes(ck)
     ck.lean(["SpoxModel.Props.C03"], audit="SpoxModel.Audit.C03")
     if ck.thorough:
         ck.leanchecker(["SpoxModel.Props.C03"])
 
     rng = ck.rng
-    n_prog = ck.pick(500, 3000)
+    n_prog = ck.pick(900 if changed else 500, 3000)  # code the model covers was edited: look harder
     cases = []  # (prog, env, [reqs])
     for _ in range(n_prog):
         prog = lf.gen_program(rng)
